@@ -16,6 +16,17 @@ pub struct IsoWeek { _p: () }
 pub struct Weekday { _p: () }
 pub enum LocalResult<T> { None, Single(T), Ambiguous(T, T) }
 
+impl<Tz> Clone for DateTime<Tz> { #[verifier::external_body] fn clone(&self) -> (r: Self) ensures r == *self { unimplemented!() } }
+impl<Tz> Copy for DateTime<Tz> {}
+pub uninterp spec fn clock_reading(d: DateTime<Local>) -> bool;      // d was read from the wall clock during this call
+impl PartialEq for DateTime<Local> { #[verifier::external_body] fn eq(&self, o: &DateTime<Local>) -> (r: bool) ensures r == (instant(*self) == instant(*o)) { unimplemented!() } }
+impl PartialOrd for DateTime<Local> {
+    #[verifier::external_body] fn partial_cmp(&self, o: &DateTime<Local>) -> Option<std::cmp::Ordering> { unimplemented!() }
+    #[verifier::external_body] fn ge(&self, o: &DateTime<Local>) -> (r: bool) ensures r == (instant(*self) >= instant(*o)) { unimplemented!() }
+    #[verifier::external_body] fn gt(&self, o: &DateTime<Local>) -> (r: bool) ensures r == (instant(*self) > instant(*o)) { unimplemented!() }
+    #[verifier::external_body] fn le(&self, o: &DateTime<Local>) -> (r: bool) ensures r == (instant(*self) <= instant(*o)) { unimplemented!() }
+    #[verifier::external_body] fn lt(&self, o: &DateTime<Local>) -> (r: bool) ensures r == (instant(*self) < instant(*o)) { unimplemented!() }
+}
 pub uninterp spec fn civil(d: DateTime<Local>) -> (int, int, int, int, int, int);
 pub uninterp spec fn instant(d: DateTime<Local>) -> int;
 pub uninterp spec fn ordinal0_of(d: DateTime<Local>) -> int;
@@ -50,6 +61,7 @@ impl Weekday {
     #[verifier::external_body] pub fn num_days_from_monday(&self) -> (r: u32) ensures r == weekday_num(*self), 0 <= r < 7 { unimplemented!() }
 }
 impl Local {
+    #[verifier::external_body] pub fn now() -> (r: DateTime<Local>) ensures clock_reading(r) { unimplemented!() }
     #[verifier::external_body]
     pub fn with_ymd_and_hms(&self, year: i32, month: u32, day: u32, hour: u32, min: u32, sec: u32) -> (r: LocalResult<DateTime<Local>>)
         ensures (r is Single) == local_unique(year as int, month as int, day as int, hour as int, min as int, sec as int),
